@@ -60,12 +60,12 @@ theorem exec_fresh_runs {P : Prog} (n : Nat) (s : Storage) (id : NodeId) (r : Re
     (hl : alookup s.derived id = some r) (hso : NoDerived r.deps) (hf : DepsMatch s s.srcs s.maps r.deps) :
     ∃ s' b, exec (n + 1) P s id = (s', .ok b) ∧ s'.runs = s.runs ∧ s'.log = s.log ∧
       (alookup s'.derived id).map (·.val) = some r.val := by
-  rw [exec_succ]
   have hp : pushTop s id = { s with topCalls := s.topCalls ++ [id], pushes := s.pushes ++ [id] } := by
     simp [pushTop, hst]
+  show ∃ s' b, execF (upToDate (n + 1) P) s id = (s', .ok b) ∧ _
+  unfold execF
   rw [hp]
-  unfold execBody
-  simp only [hl]
+  simp only [upToDate, hl]
   by_cases htv : r.tv = s.epoch
   · rw [if_pos htv]
     exact ⟨_, false, rfl, by simp [regDep, hst], by simp [regDep, hst], by simp [regDep, hst, hl]⟩
@@ -75,7 +75,7 @@ theorem exec_fresh_runs {P : Prog} (n : Nat) (s : Storage) (id : NodeId) (r : Re
                  derived := ainsert s.derived id (Rev.mk r.val r.tu s.epoch r.deps) } := by
       simp [setTv, hl]
     simp only [hsetTv]
-    have hA := anyDep_fresh (exec n P) r.deps
+    have hA := anyDep_fresh (dropTu (upToDate n P)) r.deps
       { s with topCalls := s.topCalls ++ [id], pushes := s.pushes ++ [id],
                derived := ainsert s.derived id (Rev.mk r.val r.tu s.epoch r.deps) } hso
       (fun d hd => (hf d hd).congr rfl rfl)
